@@ -119,6 +119,11 @@ def _engine_check(prop, cfgs, level_text, assumptions, modes=(0,), queries=False
         for h in EXTRA_HARNESSES.get(prop, []):
             jobs += harness_jobs(h, prop, tier, ["plain", "noslack"] if (h in ("fmt", "misc", "cons", "wfmt") and "noslack" in cfgs) else ["plain"], nw=1 if h in ("misc", "cons", "wfmt") else 4)
             hs.append(h)
+        if prop in ("C01", "C02"):      # string-level fold / normalise sweeps with every dmax (their faults are C01/C02 matters too)
+            li = build.build_lib("plain"); uexe = build.build_harness(li, "uni", ["uni.c"])
+            for mode in ("fcstr", "normstr"):
+                jobs.append(("uni/%s/plain" % mode, [uexe, "--prop", prop, "--tier", tier, "--seed", str(seed()), "--cfg", "plain", "--mode", mode]))
+            hs.append("uni")
         run_workers(jobs, res)
         builds = list(cfgs)
         if prop in ("C01", "C02"):
